@@ -49,9 +49,9 @@ impl Engine for E {
                 }
             }
             "C16" => {
-                p.cases = if quick { 1200 } else { 60_000 };
+                p.cases = if quick { 6000 } else { 400_000 };
                 p.timeout_s = if quick { 600 } else { 3600 };
-                p.san = vec![SanTier { name: "nodebug", shards: 16, cases: if quick { 120 } else { 6000 }, timeout_s: if quick { 600 } else { 3600 }, budget_s: 0 }];
+                p.san = vec![SanTier { name: "nodebug", shards: 16, cases: if quick { 600 } else { 40_000 }, timeout_s: if quick { 600 } else { 3600 }, budget_s: 0 }];
                 p.rule = "cases rotate over four kinds: (binary, x2) one registered contract-side type: value round-trip, then its little-endian encoding decoded under truncation at every offset, a 0..255 sweep of the first byte, little-endian length inflation and 200 random mutations, judged for panic, allocation bound, canonicity (byte-exact, or value-exact for the collections documented as unordered); (ordered) 8 rounds of sorted/duplicate/unordered inputs against every ordered and unordered collection decoder, plus 40 rounds of checked arithmetic against 128-bit integers; (text) Display/FromStr round-trips and grammar recognisers on grammar-generated and single-character-mutated strings. evaluations = judged decodes, round-trips, accept/reject comparisons and arithmetic comparisons; distinct_nontrivial = distinct cases of each kind (binary: a mutated input decoded successfully)".into();
                 p.assumptions = vec![
                     "harness recognisers for names, amounts, durations, contract addresses and base58check are transcribed from the doc comments and share no code with the library (sha2 and num-bigint only)".into(),
@@ -85,15 +85,15 @@ impl Engine for E {
                 }
             }
             "C10" => {
-                p.cases = if quick { 700 } else { 50_000 };
+                p.cases = if quick { 400 } else { 40_000 };
                 p.timeout_s = if quick { 600 } else { 3600 };
-                p.san = vec![SanTier { name: "nodebug", shards: 16, cases: if quick { 70 } else { 5000 }, timeout_s: if quick { 600 } else { 3600 }, budget_s: 0 }];
+                p.san = vec![SanTier { name: "nodebug", shards: 16, cases: if quick { 40 } else { 4000 }, timeout_s: if quick { 600 } else { 3600 }, budget_s: 0 }];
                 p.rule = "4 of 5 cases: a generated schema Type (nesting <= 32, all constructors and size lengths) with 4 generated conforming values; for each value the JSON input, the expected normal-form JSON and the expected bytes are derived side by side from the same primitives (harness encoder); judged: serial_value(json) == bytes, to_json(bytes) == normal form consuming everything, serial_value(normal form) == bytes; then 16 mutated and 6 random byte strings are converted under the same type (no panic). 1 of 5 cases: a generated module schema V0..V3 through to_bytes/from_bytes, VersionedModuleSchema::new with and without prefix, from_base64_str, and one Type of nesting up to 32 through its binary form. evaluations = judged conversions; distinct_nontrivial = distinct (type, value) pairs with >= 4 bytes, and distinct module schemas".into();
                 p.assumptions = vec![
                     "harness encoder of the contract-side format (little-endian, size lengths, LEB128, enum tags), base58check and base64 are written from the format rules; chrono (shared with the library) renders the expected RFC 3339 text".into(),
                     "collections of zero-width elements only with small declared lengths; hostile bytes only under types without such collections (O2); nesting <= 32 (O1)".into(),
                 ];
-                p.floors = vec![("convert.serial_value".into(), if quick { 20_000 } else { 1_000_000 }), ("convert.to_json".into(), if quick { 20_000 } else { 1_000_000 }), ("hostile.accepted".into(), 5000), ("hostile.rejected".into(), 20_000), ("max.convert.type_depth".into(), 32), ("convert.depth.32".into(), 100), ("ctor.Enum>256".into(), 20)];
+                p.floors = vec![("convert.serial_value".into(), if quick { 10_000 } else { 1_000_000 }), ("convert.to_json".into(), if quick { 10_000 } else { 1_000_000 }), ("hostile.accepted".into(), 5000), ("hostile.rejected".into(), 20_000), ("max.convert.type_depth".into(), 32), ("convert.depth.32".into(), 100), ("ctor.Enum>256".into(), 20)];
                 for c in ["Unit", "Bool", "U8", "U16", "U32", "U64", "U128", "I8", "I16", "I32", "I64", "I128", "Amount", "AccountAddress", "ContractAddress", "Timestamp", "Duration", "Pair", "List", "Set", "Map", "Array", "Struct", "Enum", "String", "ContractName", "ReceiveName", "ULeb128", "ILeb128", "ByteList", "ByteArray", "TaggedEnum"] {
                     p.floors.push((format!("ctor.{}", c), 200));
                 }
@@ -107,9 +107,9 @@ impl Engine for E {
                 }
             }
             "C17" => {
-                p.cases = if quick { 900 } else { 60_000 };
+                p.cases = if quick { 6000 } else { 400_000 };
                 p.timeout_s = if quick { 600 } else { 3600 };
-                p.san = vec![SanTier { name: "nodebug", shards: 16, cases: if quick { 90 } else { 6000 }, timeout_s: if quick { 600 } else { 3600 }, budget_s: 0 }];
+                p.san = vec![SanTier { name: "nodebug", shards: 16, cases: if quick { 600 } else { 40_000 }, timeout_s: if quick { 600 } else { 3600 }, budget_s: 0 }];
                 p.rule = "cases rotate: (2 of 5) a generated CBOR item tree (nesting <= 64, integers at head-width boundaries) converted to value::Value: cbor_encode must equal the harness emitter's deterministic encoding, pass the independent checker, be deterministic, round-trip, reject a trailing byte, then 30 mutated inputs are decoded (no panic, allocation bound); (2 of 5) one registered token/primitive type: round-trip, determinism, checker, and the negative edits (trailing byte, truncation, inflated length, changed major type, removed mandatory key, undeclared key under both options), then 46 hostile inputs; (1 of 5) unknown operations/tags through CborUpward and bare types, TokenAmount across CBOR / decimal string / JSON, random bytes. evaluations = judged encodes, decodes and accept/reject comparisons; distinct_nontrivial = distinct encodings of more than two bytes".into();
                 p.assumptions = vec![
                     "harness CBOR emitter/parser/checker written from RFC 8949; shares no code with ciborium or the library".into(),
